@@ -214,12 +214,24 @@ Proof.
   unfold janon_mean. rewrite Ha, (qsum_map2_div Qcplus). unfold vadd, Qcdiv. ring.
 Qed.
 
-Lemma janon_formula : janon outputs n d = map (janon_spec ya) ycs.
+Lemma janon_formula : janon outputs n d = map (janon_published ya) ycs.
 Proof.
   unfold janon, outputs. rewrite (split_abc_blocks ya yb ycs n d Ha Hb Hd Hc).
-  rewrite <- Hd. rewrite <- (map_nth_seq (janon_spec ya) ycs). apply map_ext_in. intros i Hi.
+  rewrite <- Hd. rewrite <- (map_nth_seq (janon_published ya) ycs). apply map_ext_in. intros i Hi.
   apply in_seq in Hi. unfold nthq. rewrite !nth_map_seq by lia.
-  rewrite janon_mean_model. unfold janon_spec, mean_prod. rewrite Ha, !qinv_mul_l.
+  rewrite janon_mean_model. unfold janon_published, mean_prod. rewrite Ha, !qinv_mul_l.
+  unfold vadd. rewrite map2_map_l, map2_map_r.
+  rewrite (qsum_map2_div (fun a c => a * a + c * c)). unfold sq, vmul.
+  f_equal. f_equal. f_equal. unfold Qcdiv. ring.
+Qed.
+
+(* the code before its fix *)
+Lemma janon_orig_formula : janon_orig outputs n d = map (janon_orig_spec ya) ycs.
+Proof.
+  unfold janon_orig, outputs. rewrite (split_abc_blocks ya yb ycs n d Ha Hb Hd Hc).
+  rewrite <- Hd. rewrite <- (map_nth_seq (janon_orig_spec ya) ycs). apply map_ext_in. intros i Hi.
+  apply in_seq in Hi. unfold nthq. rewrite !nth_map_seq by lia.
+  rewrite janon_mean_model. unfold janon_orig_spec, mean_prod. rewrite Ha, !qinv_mul_l.
   unfold vadd. rewrite map2_map_l, map2_map_r.
   rewrite (qsum_map2_div (fun a c => a * a + c * c)). unfold sq, vmul.
   f_equal. f_equal. f_equal. unfold Qcdiv. ring.
@@ -408,14 +420,15 @@ Lemma fold_app_outputs {T U} (f : T -> U) (cs : list (list T)) acc :
 Proof. revert acc; induction cs as [|c cs IH]; intro acc; cbn [fold_left map concat]; [symmetry; apply app_nil_r|].
   rewrite IH, app_assoc. reflexivity. Qed.
 
-Lemma gsa_outputs_correct score p g H W C bs masks x t : (1 <= bs)%nat ->
+Lemma gsa_outputs_correct score p g H W C bs masks x t : bs_valid bs ->
   gsa_outputs score p g H W C bs masks x t = perturbed_scores score p g H W C masks x t.
 Proof.
   intro Hb. unfold gsa_outputs, perturbed_scores. rewrite fold_app_outputs. cbn [app].
-  apply map_chunks. exact Hb.
+  destruct masks as [|m masks]; [reflexivity|].
+  apply map_chunks. destruct bs as [b|]; cbn [eff_bs length bs_valid] in *; lia.
 Qed.
 
-Lemma gsa_explain_correct score est pf g H W C bs masks xs ts : (1 <= bs)%nat ->
+Lemma gsa_explain_correct score est pf g H W C bs masks xs ts : bs_valid bs ->
   gsa_explain score est pf g H W C bs masks xs ts
   = map2 (fun x t => est (perturbed_scores score (pf x) g H W C masks x t)) xs ts.
 Proof.
@@ -426,7 +439,7 @@ Qed.
 (* Sobol: the map (before the resize) of every input is, cell by cell, the Jansen formula of the scores of the
    input perturbed by the rows of A and of C_i, for every forward batch size *)
 Lemma sobol_map_is_estimator score pf g H W C bs n A B xs ts :
-  (1 <= bs)%nat -> is_matrix n (g * g) A -> is_matrix n (g * g) B ->
+  bs_valid bs -> is_matrix n (g * g) A -> is_matrix n (g * g) B ->
   sobol_explain score jansen pf g H W C bs n (replicated_design (g * g) A B) xs ts
   = map2 (fun x t => let s := fun m => score (perturb (pf x) g H W C x m) t in
                      map (fun i => jansen_spec (map s A) (map s (c_block i A B))) (seq 0 (g * g))) xs ts.
@@ -446,7 +459,7 @@ Lemma sobol_map_is_estimator_gen (est : list Qc -> nat -> nat -> list Qc) (spec 
   (forall ya yb ycs n d, length ya = n -> length yb = n -> length ycs = d ->
       (forall c, In c ycs -> length c = n) -> est (ya ++ yb ++ concat ycs) n d = map (spec ya) ycs) ->
   forall score pf g H W C bs n A B xs ts,
-  (1 <= bs)%nat -> is_matrix n (g * g) A -> is_matrix n (g * g) B ->
+  bs_valid bs -> is_matrix n (g * g) A -> is_matrix n (g * g) B ->
   sobol_explain score est pf g H W C bs n (replicated_design (g * g) A B) xs ts
   = map2 (fun x t => let s := fun m => score (perturb (pf x) g H W C x m) t in
                      map (fun i => spec (map s A) (map s (c_block i A B))) (seq 0 (g * g))) xs ts.
@@ -464,7 +477,7 @@ Qed.
 
 (* a grid cell the score does not depend on (the outputs on C_i equal the outputs on A) gets exactly 0 *)
 Lemma sobol_cell_zero_inert score pf g H W C bs n A B x t i :
-  (1 <= bs)%nat -> is_matrix n (g * g) A -> is_matrix n (g * g) B -> (i < g * g)%nat ->
+  bs_valid bs -> is_matrix n (g * g) A -> is_matrix n (g * g) B -> (i < g * g)%nat ->
   (forall ra rc, In (ra, rc) (combine A (c_block i A B)) ->
       score (perturb (pf x) g H W C x rc) t = score (perturb (pf x) g H W C x ra) t) ->
   nthq (nth 0 (sobol_explain score jansen pf g H W C bs n (replicated_design (g * g) A B) [x] [t]) []) i = 0.
@@ -539,7 +552,7 @@ Proof.
   rewrite !nth_map_seq by assumption. rewrite E. reflexivity.
 Qed.
 
-Lemma hsic_explain_correct score gramf Lof pf g H W C bs ebs n masks xs ts : 1 <= bs -> 1 <= ebs ->
+Lemma hsic_explain_correct score gramf Lof pf g H W C bs ebs n masks xs ts : bs_valid bs -> 1 <= ebs ->
   hsic_explain score gramf Lof pf g H W C bs ebs n masks xs ts
   = map2 (fun x t => let o := perturbed_scores score (pf x) g H W C masks x t in
                      map (fun p => hsic_one gramf (Lof o) n (col p masks)) (seq 0 (g * g))) xs ts.
@@ -573,10 +586,19 @@ Proof.
 Qed.
 
 Open Scope Qc_scope.
-(* the code's Janon estimator is NOT the published one: it normalises the second moment by 1/(N-1) *)
-Lemma janon_not_published :
-  exists ya yc, length ya = length yc /\ (2 <= length ya)%nat /\ janon_spec ya yc <> janon_published ya yc.
+(* the Janon estimator as the code had it BEFORE the fix is NOT the published one: it normalised the second moment
+   by 1/(N-1) *)
+Lemma janon_orig_not_published :
+  exists ya yc, length ya = length yc /\ (2 <= length ya)%nat /\ janon_orig_spec ya yc <> janon_published ya yc.
 Proof.
   exists [0; 1; two], [1; 0; two]. repeat split; [cbn; lia|].
   intro E. apply (f_equal (fun x => Qnum (this x))) in E. vm_compute in E. discriminate.
+Qed.
+
+(* the same at the level of the executable transcriptions: old code <> current code on a stacked output vector *)
+Lemma janon_orig_differs :
+  exists outputs n d, length outputs = (n * (d + 2))%nat /\ janon_orig outputs n d <> janon outputs n d.
+Proof.
+  exists ([0; 1; two] ++ [0; 0; 0] ++ [1; 0; two]), 3%nat, 1%nat. split; [reflexivity|].
+  intro E. apply (f_equal (map (fun x => Qnum (this x)))) in E. vm_compute in E. discriminate.
 Qed.
